@@ -16,13 +16,13 @@ BUDGET = {"quick": 1400, "thorough": 40000}
 REQUIRED = ["feature:patch", "feature:zone", "feature:project_side", "feature:project_edge", "feature:project_corner",
             "feature:merge", "feature:default_patch", "feature:modify_patch", "feature:settings", "feature:delete",
             "feature:vtk", "feature:shape", "feature:graded", "judged:hex-entry", "judged:patch-quad", "judged:projected-face",
-            "judged:vtk-cell", "judged:geometry-entry", "kind:box", "kind:extrude", "kind:revolve", "kind:loft", "kind:taper", "judged:edgeGrading-slot"]
+            "judged:vtk-cell", "judged:geometry-entry", "kind:box", "kind:extrude", "kind:revolve", "kind:loft", "kind:taper", "judged:edgeGrading-slot", "feature:pre-history"]
 MIN_KEYS = 40
 RULE = (
     "random programs: a touching lattice assembly of lofts (24 orientations) + 0-3 disjoint Box / Extrude / Revolve + "
     "optionally a Cylinder / ExtrudedRing / Hemisphere; per operation random patches on any sides, cell zone, side / edge / "
     "corner projections to user geometries, count or (count,c2c) chops; mesh level: merged pairs, default patch, "
-    "modify_patch, settings, deletions, write with / without debug VTK. non-trivial: >= 3 different API features used; "
+    "modify_patch, settings, deletions, an optional assemble / clear / backport prefix, write with / without debug VTK. non-trivial: >= 3 different API features used; "
     "distinct by (sorted feature set, #operations, kinds)"
 )
 ASSUMPTIONS = [
@@ -144,7 +144,8 @@ def gen_case(ctx):
         settings["verbose"] = "true"
     return {"ops": ops, "shape": shape, "deleted": deleted, "merges": merges, "geometry": geometry,
             "default": rng.choice([None, None, ["defPatch", "wall"], ["rest", "patch"]]), "modify": modify,
-            "settings": settings, "vtk": rng.random() < 0.5, "delete_shape_op": rng.random() < 0.3}
+            "settings": settings, "vtk": rng.random() < 0.5, "delete_shape_op": rng.random() < 0.3,
+            "pre_history": rng.choice([None, None, "assemble", "clear", "backport"])}
 
 
 def build(case, cb):
@@ -214,6 +215,15 @@ def build(case, cb):
         mesh.settings[k] = v
     if case["geometry"]:
         mesh.add_geometry(case["geometry"])
+    # optional life-cycle prefix: the written file must not depend on it
+    if case.get("pre_history") == "backport":
+        mesh.assemble()
+        mesh.backport()
+    elif case.get("pre_history") == "clear":
+        mesh.assemble()
+        mesh.clear()
+    elif case.get("pre_history") == "assemble":
+        mesh.assemble()
     return mesh, objs, shape
 
 
@@ -519,7 +529,7 @@ def _features(case):
         if op["preserved"]:
             f.add("edge-graded")
     for k, name in (("merges", "merge"), ("default", "default_patch"), ("modify", "modify_patch"), ("settings", "settings"),
-                    ("deleted", "delete"), ("vtk", "vtk"), ("shape", "shape"), ("geometry", "geometry")):
-        if case[k]:
+                    ("deleted", "delete"), ("vtk", "vtk"), ("shape", "shape"), ("geometry", "geometry"), ("pre_history", "pre-history")):
+        if case.get(k):
             f.add(name)
     return f
